@@ -673,6 +673,28 @@ Proof. reflexivity. Qed.
 Lemma deadline_literal : Generated.c01_deadline_ns = [5000000000%Z].
 Proof. reflexivity. Qed.
 
+(* the argument order of the three calls between the commitment and the chain client, as source text:
+   handleBid -> StoreCommitment(ctx, bidAmt, uint64(BlockNumber), TxHash, uint64(DecayStart), uint64(DecayEnd),
+   Bid.Signature, Signature); StoreCommitment -> Pack("storeCommitment", uint64(bid.Int64()), blockNumber, txHash,
+   deacyStartTimeStamp, decayEndTimeStamp, bidSignature, commitmentSignature) with the arguments in that same
+   order; Send(ctx, &TxRequest{To: &p.preconfContractAddr, CallData: callData}).  [store_args] lists the values
+   in exactly this order; swapping two same-typed arguments in the source breaks these lemmas. *)
+Lemma store_call_order :
+  Generated.c07_store_call =
+  [[bos "ctx"; bos "bidAmt"; bos "uint64(preConfirmation.Bid.BlockNumber)"; bos "preConfirmation.Bid.TxHash";
+    bos "uint64(preConfirmation.Bid.DecayStartTimestamp)"; bos "uint64(preConfirmation.Bid.DecayEndTimestamp)";
+    bos "preConfirmation.Bid.Signature"; bos "preConfirmation.Signature"]].
+Proof. reflexivity. Qed.
+Lemma pack_args_order :
+  Generated.c07_pack_args =
+  [[bos """storeCommitment"""; bos "uint64(bid.Int64())"; bos "blockNumber"; bos "txHash"; bos "deacyStartTimeStamp";
+    bos "decayEndTimeStamp"; bos "bidSignature"; bos "commitmentSignature"]].
+Proof. reflexivity. Qed.
+Lemma send_args_wiring :
+  Generated.c07_send_args =
+  [[bos "ctx"; bos "&evmclient.TxRequest{ To: &p.preconfContractAddr, CallData: callData, }"]].
+Proof. reflexivity. Qed.
+
 Theorem gate_node K addr evs e :
   In e (heff (run K rules_validators (node_wiring addr) evs)) -> is_commit_effect e = true ->
   exists role o b a,
